@@ -112,3 +112,7 @@ C('C13', 'four-way differential (API wrapper, libffi via addressof, in-line dlop
 C('C29', 'history + shadow model of live callbacks: address distinctness at every creation and periodic full re-scans, binding checked by calling through cdata, a compiled C caller and the raw address; weakref collectability; ASan backend in one long-lived process',
   'Exploration: create/drop/churn histories up to 20000 callbacks alive crossing every closure-page growth boundary, LIFO/FIFO/random reuse of freed closures, failing creations after closure allocation, callbacks in reference cycles; each call must run exactly its own function with its own signature and result.',
   'Closure memory is mmapped (not under ASan red zones): distinctness is decided by the address monitor.')
+
+C('C08', 'round-trip monitor on both FFIs with an independent oracle: the expected ctype is built with the backend constructors from a small interpreter of the declarator text; gcc compiles getctype(T,\'v\') declarations and prints sizeof',
+  'Exploration: 100 distinct ctypes per declaration context (C07 generator) x plain name + 8 declarator suffixes from a fixed list and a random abstract-declarator grammar, on the in-line FFI and the C-parser FFI of the emitted module; typeof(getctype(T)) is T, typeof(getctype(T,x)) is the constructor-built object; one gcc probe per context for declarations and sizes.',
+  'Types whose own source string gcc rejects are not given to gcc. Known finding: complex ctypes carry cffi-internal typedef names.')
